@@ -24,6 +24,7 @@ cdef class MulticastOutgoingQueue:
     @cython.locals(pending=AnswerGroup)
     cdef void _remove_answers_from_queue(self, cython.dict answers)
 
+    @cython.locals(pending=AnswerGroup)
     cpdef void async_remove_answers(self, cython.dict answers)
 
     cpdef void async_ready(self)
